@@ -9,10 +9,13 @@ The clause of C02 they are about: *"every operator domain used is imported with 
 
 * `function_imports_cover`   — FunctionProto: every domain used at any depth is a key of the import table, keys distinct;
 * `imports_first_version_kept` — a table only grows: whatever was imported keeps its version;
-* `collect_total`            — `get_called_functions` terminates within the model's step budget (no dangling reference);
+* `collect_total`            — `get_called_functions` terminates within the model's step budget, GIVEN `RefsOK` (no callee
+                                 reference dangles: on the stack and in every function of the world);
 * `collect_by_ident_closed`  — **the closure theorem of the current code** (dict keyed by `(domain, name)`, d4270e9): every
                                  function called from the main body or from a listed function is listed under its
-                                 identifier; identifiers distinct; entries are `identifier of f ↦ f`.  No hypothesis;
+                                 identifier; identifiers distinct; entries are `identifier of f ↦ f`.  Conditional on the walk
+                                 returning (`collect w main = some r`; `collect_total` gives that under `RefsOK`), nothing
+                                 assumed about names or domains;
 * `collect_only_reachable`   — every listed function is reachable from the main body (nothing superfluous is listed);
 * about the PRE-FIX walk `collectByName` (dict keyed by `f.name`; not the code any more — regression record of C02-D1):
   `name_keyed_closed_by_name`, `name_keyed_closed_partial` (closed by identifier only when no name is used in two
@@ -50,7 +53,8 @@ theorem collect_total (w : World) (main : List CNode) (h : RefsOK w (calleesL ma
 /-- **`collect_by_ident_closed`: every called function is in `ModelProto.functions`** (the code since d4270e9:
 `called_functions` keyed by `(f.function_ir.domain, f.name)`).  Whatever the world: the identifiers in the dict are
 pairwise distinct, every entry is `identifier of f ↦ f`, every function called from the main body at any depth is listed
-under its identifier, and so is every function called from a listed function.  No hypothesis on names. -/
+under its identifier, and so is every function called from a listed function.  Hypothesis: the walk returned
+(`collect w main = some r`, provided by `collect_total` when no reference dangles); nothing is assumed about names. -/
 theorem collect_by_ident_closed (w : World) (main : List CNode) (r : Called) (h : collect w main = some r) :
     (r.map (·.1)).Nodup
       ∧ (∀ p, p ∈ r → ∃ f, w[p.2]? = some f ∧ ident f = p.1)
